@@ -44,18 +44,89 @@ contract(
 )
 
 # --- reraised_exception ------------------------------------------------------------------------
-contract('reraised.lazy_message', FR, 'lazy_message', abstract=True, params=['fn'],
-         may_raise=('BaseException',), allocates=True,
-         note='assumed: the message thunk returns a str or raises anything; modifies nothing')
+G_LAZY_FAIL = 'g:lazy_failures'       # ghost: failures of the message thunk
+G_LAZY_LAST = 'ga:lazy_last'          # ghost: [0] = what the message thunk returned last
 
-contract('reraised_exception.decorate_exception', FR, 'decorate_exception', abstract=True,
-         params=['exception', 'message'],
-         ensures=lambda c: z3.Or(c.result == c['exception'],
-                                 z3.And(is_VRef(c.result), ref(c.result) >= c.old.alloc,
-                                        proxy_of(ref(c.result), ref(c['exception'])))),
-         allocates=True,
-         note='assumed (class creation is outside the subset; structural + bounded checks cover it): '
-              'returns the exception itself or a fresh ExceptionProxy of it; never raises')
+
+def lazy_fail(h):
+  return h.get(G_LAZY_FAIL)
+
+
+def lazy_last(h):
+  return h.get(G_LAZY_LAST)[0]
+
+
+contract('reraised.lazy_message', FR, 'lazy_message', abstract=True, params=['fn'],
+         ensures=lambda c: z3.And(lazy_fail(c.heap) == lazy_fail(c.old), lazy_last(c.heap) == c.result),
+         may_raise=('BaseException',),
+         raises_post={'BaseException': lambda c: lazy_fail(c.heap) == lazy_fail(c.old) + 1},
+         allocates=True, ghost_writes=(G_LAZY_FAIL, G_LAZY_LAST),
+         note='assumed: the message thunk returns a str or raises anything; modifies nothing; the '
+              'ghost state records its last result and counts its failures')
+
+G_DEC_FAIL = 'g:decorate_failures'     # ghost: failures while constructing an exception proxy
+
+
+def dec_fail(h):
+  return h.get(G_DEC_FAIL)
+
+
+def _dec_failed(c):
+  return dec_fail(c.heap) == dec_fail(c.old) + 1
+
+
+def _dec_quiet(c):
+  return dec_fail(c.heap) == dec_fail(c.old)
+
+
+def _same_exc_kind(h, p, e):
+  """The proxy class subclasses the class of the exception: same side of every `except` clause."""
+  return z3.And(*[cls_in(h.cls(ref(p)), n) == cls_in(h.cls(ref(e)), n)
+                  for n in ('BaseException', 'Exception')])
+
+
+contract('reraised.make_exception_class', FR, 'make_exception_class', abstract=True,
+         params=['exception_type'], ensures=_dec_quiet,
+         may_raise=('Exception',), raises_post={'Exception': _dec_failed},
+         allocates=True, ghost_writes=(G_DEC_FAIL,),
+         note='assumed: creates (or fetches from its cache) the proxy subclass; class creation is '
+              'outside the subset; a failure is recorded in ghost state')
+contract('reraised.ExceptionProxy', FR, 'ExceptionProxy', abstract=True,
+         params=['cls', 'proxy_base_exception', 'proxy_message'],
+         ensures=lambda c: z3.And(is_VRef(c.result), ref(c.result) >= c.old.alloc,
+                                  ref(c.result) < c.heap.alloc,
+                                  is_VRef(c['proxy_base_exception']),
+                                  proxy_of(ref(c.result), ref(c['proxy_base_exception'])),
+                                  c.heap.fld(ref(c.result), 'proxy_message') == c['proxy_message'],
+                                  c.heap.fld(ref(c.result), 'proxy_base_exception') == c['proxy_base_exception'],
+                                  _same_exc_kind(c.heap, c.result, c['proxy_base_exception']),
+                                  _dec_quiet(c)),
+         may_raise=('Exception',), raises_post={'Exception': _dec_failed},
+         allocates=True, ghost_writes=(G_DEC_FAIL,),
+         note='assumed: ExceptionProxy.__init__ stores its two arguments (4 lines, outside the subset '
+              'because the class is created dynamically)')
+def _decorate_post(c):
+  h, h0 = c.heap, c.old
+  r = c.result
+  return z3.Or(
+      # the proxy could not be made: the exception itself, and a failure was recorded
+      z3.And(r == c['exception'], dec_fail(h) > dec_fail(h0)),
+      # otherwise a fresh proxy of the exception that carries exactly the given message
+      z3.And(is_VRef(r), ref(r) >= h0.alloc, proxy_of(ref(r), ref(c['exception'])),
+             h.fld(ref(r), 'proxy_message') == c['message'],
+             h.fld(ref(r), 'proxy_base_exception') == c['exception'],
+             _same_exc_kind(h, r, c['exception'])))
+
+
+contract('reraised_exception.decorate_exception', FR, 'decorate_exception',
+         requires=lambda c: z3.And(is_VRef(c['exception']), ref(c['exception']) < c.old.alloc,
+                                   cls_in(c.old.cls(ref(c['exception'])), 'BaseException')),
+         ensures=_decorate_post,
+         calls={'proxy_cls': 'reraised.ExceptionProxy'},
+         allocates=True, ghost_writes=(G_DEC_FAIL,),
+         props=('C05',),
+         note='returns a fresh ExceptionProxy of the exception carrying exactly the given message; '
+              'the exception itself only when constructing the proxy failed; never raises')
 
 
 def _twlm_exc_rel(c, E, F):
@@ -66,14 +137,107 @@ def _twlm_exc_rel(c, E, F):
                z3.And(F.val == E.val, F.cls_term == E.cls_term))
 
 
+def _is_exception(h, v):
+  return z3.And(is_VRef(v), cls_in(h.cls(ref(v)), 'Exception'))
+
+
+def _exit_req(c):
+  h = c.old
+  e = c['exc']
+  return z3.And(is_VRef(c['self']), ref(c['self']) < h.alloc,
+                z3.Or(e == VNone, z3.And(is_VRef(e), ref(e) < h.alloc,
+                                         cls_in(h.cls(ref(e)), 'BaseException'))))
+
+
+def _exit_post(c):
+  """Returns normally only with False (the body's exception, if any, goes on unchanged), and for
+  an Exception only when formatting the message failed."""
+  h, h0 = c.heap, c.old
+  return z3.And(c.result == VBool(z3.BoolVal(False)),
+                z3.Implies(_is_exception(h0, c['exc']), lazy_fail(h) > lazy_fail(h0)))
+
+
+def _exit_raises_post(c):
+  """What __exit__ raises: the exception itself when no proxy could be made, else a fresh proxy
+  of it whose message is exactly what the message thunk returned."""
+  h, h0 = c.heap, c.old
+  F = c.exc
+  e = c['exc']
+  return z3.And(
+      _is_exception(h0, e),
+      z3.Or(z3.And(F.val == e, dec_fail(h) > dec_fail(h0)),
+            z3.And(is_VRef(F.val), ref(F.val) >= h0.alloc, proxy_of(ref(F.val), ref(e)),
+                   h.fld(ref(F.val), 'proxy_message') == lazy_last(h),
+                   h.fld(ref(F.val), 'proxy_base_exception') == e)))
+
+
 contract(
-    'reraised_exception.try_with_lazy_message', FR, 'try_with_lazy_message', cm=True,
-    exc_rel=_twlm_exc_rel,
-    calls={'lazy_message': 'reraised.lazy_message'},
+    'reraised_exception.try_with_lazy_message.__exit__', FR, 'try_with_lazy_message.__exit__',
+    requires=_exit_req, ensures=_exit_post,
+    may_raise=('Exception',), raises_post={'Exception': _exit_raises_post},
+    calls={'self._lazy_message': 'reraised.lazy_message'},
+    allocates=True, ghost_writes=(G_LAZY_FAIL, G_LAZY_LAST, G_DEC_FAIL),
     props=('C05',),
-    note='body returns -> nothing; body raises an Exception e -> e itself (if formatting the message '
-         'fails) or its decorated proxy escapes; any other BaseException propagates unchanged; '
-         'nothing is swallowed',
+    note='never swallows (returns False or raises); for a body exception e that is an Exception: '
+         'raises the proxy of e carrying exactly the lazily computed message (or e itself when the '
+         'proxy class cannot be made); returns False, so that e goes on unchanged, only when e is '
+         'not an Exception or when formatting the message failed',
+)
+
+FL5 = '@verif/lemmas/c05_with.py'
+
+
+def _wb_req(c):
+  h = c.old
+  e = c['body_exception']
+  return z3.And(is_VRef(c['cm']), ref(c['cm']) < h.alloc,
+                is_VRef(e), ref(e) < h.alloc, cls_in(h.cls(ref(e)), 'BaseException'))
+
+
+def _wb_raises_post(c):
+  """exc_rel of the context-manager contract, now derived: E the body's exception, F what escapes."""
+  h, h0 = c.heap, c.old
+  F = c.exc
+  e = c['body_exception']
+  return z3.If(_is_exception(h0, e),
+               z3.Or(F.val == e,
+                     z3.And(is_VRef(F.val), proxy_of(ref(F.val), ref(e)),
+                            h.fld(ref(F.val), 'proxy_message') == lazy_last(h))),
+               F.val == e)
+
+
+contract(
+    'lemma.c05.with_block_raising', FL5, 'with_block_raising',
+    requires=_wb_req,
+    ensures=lambda c: z3.BoolVal(False),        # never returns: nothing is swallowed
+    may_raise=('BaseException',), raises_post={'BaseException': _wb_raises_post},
+    calls={'cm.__exit__': 'reraised_exception.try_with_lazy_message.__exit__'},
+    allocates=True, ghost_writes=(G_LAZY_FAIL, G_LAZY_LAST, G_DEC_FAIL),
+    props=('C05',),
+    note='lemma: a with-block over try_with_lazy_message whose body raises e never completes '
+         'normally; what escapes is e itself or (only for an Exception) its proxy carrying the lazily '
+         'computed message',
+)
+contract(
+    'lemma.c05.with_block_returning', FL5, 'with_block_returning',
+    requires=lambda c: z3.And(is_VRef(c['cm']), ref(c['cm']) < c.old.alloc),
+    ensures=lambda c: c.result == VNone,
+    calls={'cm.__exit__': 'reraised_exception.try_with_lazy_message.__exit__'},
+    allocates=True, ghost_writes=(G_LAZY_FAIL, G_LAZY_LAST, G_DEC_FAIL),
+    props=('C05',),
+    note='lemma: a with-block over try_with_lazy_message whose body completes raises nothing',
+)
+
+contract(
+    'reraised_exception.try_with_lazy_message', FR, 'try_with_lazy_message', cm=True, abstract=True,
+    params=['lazy_message'],
+    exc_rel=_twlm_exc_rel,
+    props=('C05',),
+    note='the with-statement protocol applied to the proved contract of __exit__ (lemma '
+         'lemmas/c05_with.py: `with cm: body` re-raises the body\'s exception when __exit__ returns a '
+         'false value and lets an exception raised by __exit__ replace it): body returns -> nothing; '
+         'body raises an Exception e -> e itself or its decorated proxy escapes; any other '
+         'BaseException propagates unchanged; nothing is swallowed',
 )
 
 
